@@ -97,6 +97,29 @@ CHECKS["C19"] = {
   "technique": "Coq proof (invariant by induction over op lists) + differential correspondence",
 }
 
+CHECKS["C11"] = {'design_ref': 'DESIGN.md section 6 C11',
+ 'note': 'Trusted: as C16, plus tools/bep29.py. No axioms. Accept/reject theorems assume the input is a list '
+         'of bytes (bytes_okb). Partial: emitted-datagram clause not covered; round trip holds only for '
+         'headers with at most one extension (W1).',
+ 'technique': 'Coq proof (induction over the extension chain; iff with a declarative packet grammar) + '
+              'enumerative/differential correspondence + independent-parser oracle',
+ 'text': 'Header level, all proved over every list of bytes / every header of the Gallina model of '
+         'src/raw.rs, selective_ack.rs, ext_close_reason.rs and message.rs (no bound): deserialize accepts '
+         'exactly the declarative BEP-29 shape (>= 20 bytes, version nibble 1, type <= 4, extension chain of '
+         '(next,len,data) triples that fits) and returns the big-endian fields and the boundary 20 + '
+         'sum(2+len) (iff, both directions); the panic sites of UtpMessage::deserialize are unreachable; '
+         'payload present iff ST_DATA (iff); unknown extensions are skipped without moving the boundary; '
+         'parsed headers re-serialise to a stable 64-bit-SACK normal form. Round trip serialize/deserialize '
+         'is PROVED for every in-range header with at most one extension and REFUTED (theorem, for every '
+         'header) when selective_ack and close_reason are both present: the real serialize then writes a '
+         'malformed chain (known finding W1, replayed on the real code on every run; latent, the library '
+         'never sends a close reason). Model tied to the real code by structural enumeration of extension '
+         'chains x every truncation, random byte strings and random headers; the extracted predicates '
+         'c11_de_ok / c11_msg_ok / c11_ser_ok and an independent python BEP-29 parser are evaluated on the '
+         "implementation's own outputs. NOT covered here: the clause 'every datagram the library emits "
+         "carries version 1 and the connection id owed to that direction' (connection-level; only the "
+         'per-header serialiser is checked).'}
+
 ALL = ["C%02d" % i for i in range(1, 20)]
 NOT_APPLICABLE = {p: "check not built yet at this commit (planned: DESIGN.md section 6); not claimed"
                   for p in ALL if p not in CHECKS}
